@@ -25,6 +25,16 @@ short = {
  'C13-c': ("schema/elements.go Resolve: the override cache keyed by (name, relationship) instead of the TypeRef, so all inlined overriding references with one relationship collide", "two inlined type references with the same elementRelationship override and different structures"),
  'C14-c': ("value/value.go CompareUsing int/float truncation again (seen from C14: removal leaves a member, extraction omits one)", "a numeric set or numeric-keyed list holding n and n+0.5, S mentioning both"),
  'C19-c': ("fieldpath/set.go SetMatcher.Merge: works in place on the receiver's members, so building a filter widens the caller's first pattern value", "one pattern value used first in a multi-pattern filter and again in another filter (e.g. of another version)"),
+ 'C04-c': ("value/mapunstructured.go EqualsUsing (both map kinds): the per-key lookup drops the 'present' test, a missing key reads as null (fourth rediscovery, seen from C04: an atomic map is not reported modified, no conflict)", "the live value of an atomic map or struct owned by A holds an explicit null; B applies a map of the same size that replaces that key by another"),
+ 'C07-c': ("the same edit to value/mapunstructured.go (seen from C07: Apply answers 'nothing to persist' although the object changed)", "a manager applies {a: null, c: 1}, then {b: null, c: 1}"),
+ 'C08-c': ("merge/update.go reconcileManagedFieldsWithSchemaChanges: a record at a version the converter reports as gone is deleted from the CALLER'S map", "an Apply or Update while the caller's map still holds a record at a vanished version; results are unchanged, only the argument is"),
+ 'C09-c': ("fieldpath/set.go EnsureNamedFieldsAreMembers: starts from the receiver's own member slice (third rediscovery, seen from C09: the second of two identical calls answers differently)", "a set node with spare capacity (3, 5–7, 9–15 members) and a named struct child sorting before a member; the same call repeated on the same objects"),
+ 'C10-c': ("schema/elements.go Resolve: defer Unlock replaced by explicit unlocks, the arm for an override on a scalar or empty type returns with the schema's mutex held", "a reference with an elementRelationship override to a scalar type, resolved once; every later resolution of an overriding reference on that schema blocks"),
+ 'C15-c': ("value/value.go CompareUsing int/float truncation (fifth rediscovery, seen from C15: Has fails after Insert, union and intersection wrong)", "value path elements 1 and 1.5 under one parent"),
+ 'C16-c': ("value/value.go CompareUsing int/float truncation (seen from C16: ToJSON drops a member, equal sets serialise differently)", "numeric value or key path elements n and n+0.5 at one level"),
+ 'C17-c': ("value/structreflect.go EqualsUsing: reflect.DeepEqual when both sides are structs of one Go type", "two reflected structs of the same type whose omitted fields are empty in different ways (nil against empty slice or map)"),
+ 'C18-c': ("value/reflectcache.go CanOmit: three ifs folded into a switch, omitzero is no longer consulted when omitempty is set too", "a struct-kind field (or one with IsZero) tagged omitempty AND omitzero holding its zero value"),
+ 'C20-c': ("typed/reconcile_schema.go doMap: 'owns something here' tests the direct members only", "a struct turning atomic of which a manager owns only paths two or more levels down"),
  'C07-b': ("the aliasing in EnsureNamedFieldsAreMembers once more (seen from C07: a re-apply rewrites the applier's own record)", "a second apply by a manager whose record has 3, 5–7 leaf members at a nested struct level and a struct sibling sorting before one of them"),
  'C08-b': ("fieldpath/set.go SetNodeMap.RecursiveDifference: binary-search fast-forward keeps `s.members[:i]` with the receiver's capacity, later appends write into the receiver", "s2 with children only at some level, s with an earlier child and a later child that loses something (reached through reconciliation when a nested struct turns atomic)"),
  'C09-b': ("schema/elements.go Resolve: a field-level elementRelationship override is written into the shared named LIST type instead of a copy", "a named list type referenced both plainly and with an override; any earlier call that resolves the overriding reference changes later results"),
